@@ -4,4 +4,4 @@
 From Coq Require Import extraction.Extraction extraction.ExtrOcamlBasic.
 From PDL Require Import Oracle.
 Extraction Language OCaml.
-Extraction "oracle_ext.ml" Oracle.load_file Oracle.run_case.
+Extraction "oracle_ext.ml" Oracle.load_file Oracle.run_case Oracle.parse_line.
